@@ -1,5 +1,6 @@
 import TTLemmas.ReduceDims
 import TTLemmas.Mul
+import TTModel.Reduce2
 
 /-!
 # `__getitem__` on TT-matrices (operator branch) and the embedding loop of `dot(a, b, axis)`
@@ -438,5 +439,262 @@ theorem gm_slicedM_isSome (sel : List (Sel × Sel)) : ∀ (cs : List (Core α)) 
       simp only [gm_slicedM, List.all_cons, List.countP_cons, Option.isSome_map, Option.isSome_none,
         ih] <;>
       simp [gm_pairOK, gm_pairNone]
+
+
+/-! ## Part B: the embedding loop of `dot(a, b, axis)` -/
+
+/-- an additive map with `cj 0 = 0` commutes with bounded sums -/
+theorem gm_cj_sumTo (cj : α → α) (h0 : cj 0 = 0) (hadd : ∀ x y, cj (x + y) = cj x + cj y)
+    (n : Nat) (f : Nat → α) : cj (sumTo n f) = sumTo n (fun k => cj (f k)) := by
+  induction n with
+  | zero => simpa [sumTo] using h0
+  | succ n ih => simp [sumTo, hadd, ih]
+
+/-- the step of `embedGo` at an uncontracted position: the identity core is square as soon as the
+    remaining cores of `b` chain from the current `rank_left` -/
+theorem gm_embedGo_false (cj : α → α) (ms : List Bool) (a0 : Core α) (as bs : List (Core α))
+    (rl : Nat) (hw : WF bs rl) :
+    embedGo cj (false :: ms) (a0 :: as) bs rl
+      = (eyeRect rl rl a0.m).mapVal cj :: embedGo cj ms as bs rl := by
+  rcases ms with _ | ⟨_ | _, ms'⟩ <;> rcases bs with _ | ⟨b, bs'⟩ <;>
+    (simp only [embedGo]; try rw [show b.r0 = rl from hw.1])
+
+/-- the same step without well-formedness: some right rank `rr` -/
+theorem gm_embedGo_false' (cj : α → α) (ms : List Bool) (a0 : Core α) (as bs : List (Core α))
+    (rl : Nat) :
+    ∃ rr, embedGo cj (false :: ms) (a0 :: as) bs rl
+      = (eyeRect rl rr a0.m).mapVal cj :: embedGo cj ms as bs rl := by
+  rcases ms with _ | ⟨_ | _, ms'⟩ <;> rcases bs with _ | ⟨b, bs'⟩ <;>
+    (refine ⟨?_, ?_⟩; rotate_left; simp only [embedGo]; rfl)
+
+/-- a (conjugated) square identity core is transparent -/
+theorem gm_chain_eyeRect (cj : α → α) (h0 : cj 0 = 0) (h1 : cj 1 = 1) (r m : Nat)
+    (t : List (Core α)) (x : Nat × Nat) (xs : List (Nat × Nat)) (a b : Nat) (ha : a < r) :
+    chain ((eyeRect r r m : Core α).mapVal cj :: t) (x :: xs) a b = chain t xs a b := by
+  simp only [chain, eyeRect, Core.mapVal]
+  rw [sumTo_single a ha]
+  · simp [h1]
+  · intro k _ hk
+    have : ¬ (a = k) := fun h => hk h.symm
+    simp [this, h0]
+
+/-- **value of the embedded train**, for an arbitrary left rank index: `cj` of the entry of `b`
+    at the indices of the contracted positions -/
+theorem gm_chain_embedGo (cj : α → α) (h0 : cj 0 = 0) (h1 : cj 1 = 1)
+    (hadd : ∀ x y, cj (x + y) = cj x + cj y) (hmul : ∀ x y, cj (x * y) = cj x * cj y)
+    (mask : List Bool) :
+    ∀ (as bs : List (Core α)) (rl : Nat) (ij : List (Nat × Nat)) (a : Nat),
+      mask.length = as.length → ij.length = as.length → bs.length = keptCount mask →
+      WF bs rl → a < rl →
+      chain (embedGo cj mask as bs rl) ij a 0 = cj (chain bs (keepBy mask ij) a 0) := by
+  induction mask with
+  | nil =>
+    intro as bs rl ij a hm hij hb hw ha
+    have has : as = [] := List.length_eq_zero_iff.mp hm.symm
+    subst has
+    have hbs : bs = [] := List.length_eq_zero_iff.mp (by simpa [keptCount] using hb)
+    subst hbs
+    simp only [embedGo, chain]
+    split_ifs <;> simp [h0, h1]
+  | cons m ms ih =>
+    intro as bs rl ij a hm hij hb hw ha
+    match as, ij, hm, hij with
+    | a0 :: as', x :: xs, hm, hij =>
+      have hm' : ms.length = as'.length := by simpa using hm
+      have hxs : xs.length = as'.length := by simpa using hij
+      cases m with
+      | false =>
+        rw [keptCount_false] at hb
+        rw [gm_embedGo_false cj ms a0 as' bs rl hw, gm_chain_eyeRect cj h0 h1 rl a0.m _ x xs a 0 ha]
+        simpa [keepBy] using ih as' bs rl xs a hm' hxs hb hw ha
+      | true =>
+        rw [keptCount_true] at hb
+        match bs, hb, hw with
+        | b :: bs', hb, hw =>
+          have hb' : bs'.length = keptCount ms := by simpa using hb
+          simp only [embedGo, chain, keepBy, Core.mapVal]
+          rw [gm_cj_sumTo cj h0 hadd]
+          apply sumTo_congr; intro k hk
+          rw [ih as' bs' b.r1 xs k hm' hxs hb' hw.2 hk, hmul]
+
+theorem gm_WF_embedGo (cj : α → α) (mask : List Bool) :
+    ∀ (as bs : List (Core α)) (rl : Nat),
+      mask.length = as.length → bs.length = keptCount mask → WF bs rl →
+      WF (embedGo cj mask as bs rl) rl := by
+  induction mask with
+  | nil =>
+    intro as bs rl hm hb hw
+    have has : as = [] := List.length_eq_zero_iff.mp hm.symm
+    subst has
+    have hbs : bs = [] := List.length_eq_zero_iff.mp (by simpa [keptCount] using hb)
+    subst hbs
+    simpa [embedGo] using hw
+  | cons m ms ih =>
+    intro as bs rl hm hb hw
+    match as, hm with
+    | a0 :: as', hm =>
+      have hm' : ms.length = as'.length := by simpa using hm
+      cases m with
+      | false =>
+        rw [keptCount_false] at hb
+        rw [gm_embedGo_false cj ms a0 as' bs rl hw]
+        exact ⟨rfl, ih as' bs rl hm' hb hw⟩
+      | true =>
+        rw [keptCount_true] at hb
+        match bs, hb, hw with
+        | b :: bs', hb, hw =>
+          have hb' : bs'.length = keptCount ms := by simpa using hb
+          simp only [embedGo]
+          exact ⟨hw.1, ih as' bs' b.r1 hm' hb' hw.2⟩
+
+theorem gm_length_embedGo (cj : α → α) (mask : List Bool) :
+    ∀ (as bs : List (Core α)) (rl : Nat),
+      mask.length = as.length → bs.length = keptCount mask →
+      (embedGo cj mask as bs rl).length = as.length := by
+  induction mask with
+  | nil =>
+    intro as bs rl hm hb
+    have has : as = [] := List.length_eq_zero_iff.mp hm.symm
+    subst has
+    cases bs <;> simp [embedGo]
+  | cons m ms ih =>
+    intro as bs rl hm hb
+    match as, hm with
+    | a0 :: as', hm =>
+      have hm' : ms.length = as'.length := by simpa using hm
+      cases m with
+      | false =>
+        rw [keptCount_false] at hb
+        obtain ⟨rr, he⟩ := gm_embedGo_false' cj ms a0 as' bs rl
+        rw [he]
+        simp [ih as' bs rl hm' hb]
+      | true =>
+        rw [keptCount_true] at hb
+        match bs, hb with
+        | b :: bs', hb =>
+          have hb' : bs'.length = keptCount ms := by simpa using hb
+          simp [embedGo, ih as' bs' b.r1 hm' hb']
+
+/-- mode sizes of the embedded train: those of `a` at the uncontracted positions, those of `b`
+    at the contracted ones -/
+theorem gm_modes_embedGo (cj : α → α) (mask : List Bool) :
+    ∀ (as bs : List (Core α)) (rl : Nat),
+      mask.length = as.length → bs.length = keptCount mask →
+      keepBy mask (modes (embedGo cj mask as bs rl)) = modes bs ∧
+      keepBy (mask.map not) (modes (embedGo cj mask as bs rl))
+        = (keepBy (mask.map not) (modesM as)).map (fun m => (m, 1)) := by
+  induction mask with
+  | nil =>
+    intro as bs rl hm hb
+    have has : as = [] := List.length_eq_zero_iff.mp hm.symm
+    subst has
+    have hbs : bs = [] := List.length_eq_zero_iff.mp (by simpa [keptCount] using hb)
+    subst hbs
+    simp [embedGo, keepBy, modes, modesM]
+  | cons m ms ih =>
+    intro as bs rl hm hb
+    match as, hm with
+    | a0 :: as', hm =>
+      have hm' : ms.length = as'.length := by simpa using hm
+      cases m with
+      | false =>
+        rw [keptCount_false] at hb
+        obtain ⟨rr, he⟩ := gm_embedGo_false' cj ms a0 as' bs rl
+        rw [he]
+        have := ih as' bs rl hm' hb
+        simp only [modes_cons, keepBy, List.map_cons, Bool.not_false, modesM]
+        exact ⟨this.1, by simpa [eyeRect, Core.mapVal, modesM] using this.2⟩
+      | true =>
+        rw [keptCount_true] at hb
+        match bs, hb with
+        | b :: bs', hb =>
+          have hb' : bs'.length = keptCount ms := by simpa using hb
+          have := ih as' bs' b.r1 hm' hb'
+          simp only [embedGo, modes_cons, keepBy, List.map_cons, Bool.not_true, modesM]
+          exact ⟨by simpa [Core.mapVal] using this.1, by simpa [modesM] using this.2⟩
+
+omit [CommRing α] in
+theorem gm_length_maskOf (axis : List Nat) (d : Nat) : (maskOf axis d).length = d := by
+  simp [maskOf]
+
+theorem gm_keepBy_tIdx (mask : List Bool) (is : List Nat) :
+    keepBy mask (tIdx is) = tIdx (keepBy mask is) := by
+  simp only [tIdx]
+  rw [keepBy_map]
+
+theorem gm_length_mul (xs : List (Core α)) : ∀ (ys : List (Core α)), xs.length = ys.length →
+    (mul xs ys).length = xs.length := by
+  induction xs with
+  | nil => intro ys _; cases ys <;> rfl
+  | cons x xs ih =>
+    intro ys h
+    match ys, h with
+    | y :: ys, h => simp [mul, ih ys (by simpa using h)]
+
+/-! ### `sumOver` bookkeeping -/
+
+theorem gm_sumOver_congr (sel : Nat → Bool) (cs : List (Core α)) :
+    ∀ (p : Nat) (ij : List (Nat × Nat)) (f g : List (Nat × Nat) → α),
+      ij.length = cs.length → (∀ r, r.length = cs.length → f r = g r) →
+      sumOver sel p cs ij f = sumOver sel p cs ij g := by
+  induction cs with
+  | nil => intro p ij f g _ h; simpa [sumOver] using h [] rfl
+  | cons c cs ih =>
+    intro p ij f g hij h
+    match ij, hij with
+    | x :: xs, hij =>
+      have hxs : xs.length = cs.length := by simpa using hij
+      simp only [sumOver]
+      split_ifs
+      · apply sumTo_congr; intro i _
+        apply sumTo_congr; intro j _
+        exact ih (p+1) xs _ _ hxs (fun r hr => h _ (by simp [hr]))
+      · exact ih (p+1) xs _ _ hxs (fun r hr => h _ (by simp [hr]))
+
+/-- `sumOver` only reads the mode sizes, and `mul` keeps those of its first operand -/
+theorem gm_sumOver_mul (sel : Nat → Bool) (xs : List (Core α)) :
+    ∀ (ys : List (Core α)) (p : Nat) (ij : List (Nat × Nat)) (f : List (Nat × Nat) → α),
+      xs.length = ys.length →
+      sumOver sel p (mul xs ys) ij f = sumOver sel p xs ij f := by
+  induction xs with
+  | nil => intro ys p ij f _; cases ys <;> rfl
+  | cons x xs ih =>
+    intro ys p ij f h
+    match ys, h with
+    | y :: ys, h =>
+      have h' : xs.length = ys.length := by simpa using h
+      cases ij with
+      | nil => simp [mul, sumOver]
+      | cons i is =>
+        simp only [mul, sumOver, mulCore]
+        split_ifs
+        · apply sumTo_congr; intro i _
+          apply sumTo_congr; intro j _
+          exact ih ys (p+1) is _ h'
+        · exact ih ys (p+1) is _ h'
+
+theorem gm_unselMask_len {β γ : Type} (sel : Nat → Bool) (l1 : List β) :
+    ∀ (l2 : List γ) (p : Nat), l1.length = l2.length → unselMask sel p l1 = unselMask sel p l2 := by
+  induction l1 with
+  | nil => intro l2 p h; cases l2 with
+    | nil => rfl
+    | cons _ _ => simp at h
+  | cons a l1 ih =>
+    intro l2 p h
+    match l2, h with
+    | b :: l2, h => simp [unselMask, ih l2 (p+1) (by simpa using h)]
+
+/-- the uncontracted positions are the complement of `maskOf` -/
+theorem gm_unselMask_maskOf {β : Type} (axis : List Nat) (l : List β) :
+    unselMask (fun i => axis.contains i) 0 l = (maskOf axis l.length).map not := by
+  have : ∀ (l : List β) (p : Nat), unselMask (fun i => axis.contains i) p l
+      = ((List.range' p l.length).map (fun i => axis.contains i)).map not := by
+    intro l
+    induction l with
+    | nil => intro p; rfl
+    | cons a l ih =>
+      intro p
+      simp only [unselMask, List.length_cons, List.range'_succ, List.map_cons, ih (p+1)]
+  rw [this l 0, maskOf, List.range_eq_range']
 
 end TT
